@@ -470,3 +470,59 @@ def path_facts(p):
                     facts.add(lit)
                     changed = True
     return facts
+
+
+def check_stale_derived(ctx, rule, clsname, clause=''):
+    """attributes the constructor of ``clsname`` derives from one of its parameters go stale when
+    another class writes the attribute that holds that parameter after construction (Bits._compile
+    builds its shared Int with Int() and then sets .byte_count): a run-time method that reads the
+    derived attribute works with the value of the constructor's argument, not of the object"""
+    repo = ctx.repo
+    ci = repo.cls(clsname)
+    init = repo.method(ci, '__init__')
+    if init is None:
+        return
+    params = [a.arg for a in init.node.args.args][1:]
+    stores = ctor_stores(repo, ci)
+    holder = {}          # attribute that holds a parameter as it is -> the parameter
+    for a, vals in stores.items():
+        for v in vals:
+            if v in params:
+                holder[a] = v
+    # who writes those attributes on an object that is not self, outside the class?
+    foreign = {}
+    for fi in repo.functions.values():
+        if fi.cls is ci or (fi.cls is not None and ci in repo.mro(fi.cls)):
+            continue
+        for n in ast.walk(fi.node):
+            if isinstance(n, ast.Assign):
+                for t in n.targets:
+                    if isinstance(t, ast.Attribute) and t.attr in holder and not (isinstance(t.value, ast.Name) and t.value.id == 'self'):
+                        # the object must be (possibly) an instance of the class: a local built by K(...)
+                        made = any(isinstance(a2, ast.Assign) and isinstance(a2.value, ast.Call) and call_name(a2.value) == clsname
+                                   and any(canon(tt) == canon(t.value) for tt in a2.targets) for a2 in ast.walk(fi.node))
+                        if made:
+                            foreign.setdefault(t.attr, []).append((fi, n))
+    n_ob = 0
+    for a, sites in sorted(foreign.items()):
+        P = holder[a]
+        derived = sorted(d for d, vals in stores.items() if d != a and any(P in {x.id for x in ast.walk(ast.parse(v, mode='eval')) if isinstance(x, ast.Name)} for v in vals))
+        fi0, n0 = sites[0]
+        st = '%s.%s is written by %s (%s); the constructor derives %s from it' % (clsname, a, fi0.qual, stmt_text(n0)[:50], derived or 'nothing')
+        n_ob += 1
+        if not derived:
+            ctx.holds(rule, fi0, st, 'no constructor-derived attribute can go stale', n0.lineno, clause=clause)
+            continue
+        readers = []
+        for m in ci.methods.values():
+            if m.node.name in ('__init__',):
+                continue
+            for x in ast.walk(m.node):
+                if isinstance(x, ast.Attribute) and x.attr in derived and isinstance(x.ctx, ast.Load) and isinstance(x.value, ast.Name) and x.value.id == 'self':
+                    readers.append((m, x))
+        if readers:
+            m, x = readers[0]
+            ctx.violation(rule, m, st + '; read by %s' % m.qual, 'self.%s was computed in the constructor from the argument %s, but %s changes .%s afterwards (the object is built with the default argument and then resized): the method works with the stale value' % (x.attr, P, fi0.qual, a), x.lineno, clause=clause, witness=True)
+        else:
+            ctx.holds(rule, fi0, st, 'derived attributes are not read by the methods of the class', n0.lineno, clause=clause)
+    return n_ob
